@@ -175,7 +175,7 @@ def worker(ctx, job):
         if idx is None:
             for v in diffs[0][:2]:
                 V.violation(res, "crash:%s/%s:complete-run:%s" % (sc["name"], sc["flavour"], v["sig"]), v["what"], replay)
-        res["probe"] = {"sc": sc, "steps": [{"sys": s["sys"], "len": s["len"]} for s in rep["steps"] if s.get("step") is not None]}
+        res["probe"] = {"sc": sc, "steps": [{"sys": s["sys"], "len": s["len"]} for s in rep["steps"] if s.get("step") is not None], "trace": fsx.sys_trace(rep, [cache])}
         fsutil.wipe(cache)
         return res
 
@@ -187,6 +187,8 @@ def worker(ctx, job):
         res["evals"] += 1
         if rep["status"] != "ok":
             raise fsx.TracerError("crash run status %s: %s" % (rep["status"], rep.get("error")))
+        if job.get("trace"):
+            res["extra"]["prefix_checked_steps"] = res["extra"].get("prefix_checked_steps", 0) + fsx.assert_same_prefix(rep, job["trace"], cp["step"], [cache], "C04 %s/%s" % (sc["name"], sc["flavour"]))
         snap = fsutil.snapshot(cache)
         ck = fsutil.canon(snap)
         res["distinct"].add(ck)
@@ -269,7 +271,7 @@ def main(tier, seed=0):
             total_points += len(cps)
             chunk = 12 if tier != "quick" else 25
             for i in range(0, len(cps), chunk):
-                jobs.append({"kind": "crash", "sc": pr["sc"], "crashes": cps[i:i + chunk]})
+                jobs.append({"kind": "crash", "sc": pr["sc"], "crashes": cps[i:i + chunk], "trace": pr.get("trace")})
         jobs.sort(key=lambda j: j["sc"]["id"])
         for r in pool.imap_unordered(R._work, jobs, chunksize=1):
             if "machinery_error" in r:
@@ -279,8 +281,8 @@ def main(tier, seed=0):
     finally:
         pool.terminate()
         pool.join()
-    agg["extra"] = {"scenarios": len(scs), "crash_points": total_points, "continuation_depth": 1 if tier == "quick" else 2,
-                    "continuation_alphabet": 6}
+    agg["extra"].update({"scenarios": len(scs), "crash_points": total_points, "continuation_depth": 1 if tier == "quick" else 2,
+                         "continuation_alphabet": 6})
     return R.finish(PROP, tier, agg, merr, time.time() - t0, level="fault_enumeration",
                     rule="case = (scenario [first write, overwrite longer/shorter/same content, tombstone removal, multi-byte key+metadata, rewrite after removal] x writer "
                          "flavour, kill point, torn length of the in-flight write [every byte of the index append]); distinct = distinct crash states; on each: observation through "
